@@ -161,16 +161,17 @@ PROPS = {
         streams=lns_streams("arith", 5000, 100000),
         level="proof",
         level_text="Lean theorems (all nbits, rbits, block widths, both behaviours) that the model of lns operator*=, operator/= "
-                   "(uradd/ursub, clamp compare, Wrapping `lexp += rexp`) computes the exact integer exponent sum/difference with "
-                   "clamp / wrap semantics, zero absorbing, NaN propagating, sign product; the Wrapping `/=` defect (D9) is proved as a "
-                   "counterexample; add/sub: the model of the double detour + convert_ieee754 takes the observed libm values "
+                   "(uradd/ursub, clamp compare, Wrapping `lexp += rexp` / `lexp -= rexp`) computes the exact integer exponent "
+                   "sum/difference with clamp / wrap semantics, zero absorbing, NaN propagating, sign product (Wrapping `/=` was "
+                   "repaired in f65bb52, the full theorem C09_div_wrap is the obligation); "
+                   "add/sub: the model of the double detour + convert_ieee754 takes the observed libm values "
                    "(pow, log2) as inputs and every implementation result is judged against the exact REAL sum by certified interval "
                    "arithmetic; correspondence exhaustive for every configuration <= 9 bits x {Saturating, Wrapping} x {u8,u16,u32}",
         level_note="trusted: Lean kernel, hand-written model tied by correspondence on explored inputs, g++ 12.2, libm pow/log2 "
                    "(their observed values are inputs of the add/sub model; pow is checked to be within 1 ulp on every line); "
                    "add/sub faithfulness is decided per line (spec predicate), not proved for all operands",
         explanation="lns * / exact in the log domain (proof), + - adjacent to the exact real result (spec predicate on every explored line); "
-                    "known findings: Wrapping operator/= adds (D9), Wrapping +/- out of range (D10), +/- outside binary64's range",
+                    "known findings: Wrapping +/- out of range (D10), +/- outside binary64's range",
         assumptions=["the compiled code behaves like the model on inputs that were not explored",
                      "libm pow/log2 return the observed values deterministically (same argument, same result)"],
         trusted=["libm std::pow / std::log2 (observed values are model inputs; pow verified within 1 ulp per line)"],
